@@ -184,6 +184,21 @@ func wellFormed(res *exec.Result, roots []*exec.Task) string {
 				}
 			}
 		}
+		// A dependency is wired as a shuffle exactly when the slice graph says so.
+		if len(t.Slices) > 0 {
+			b := t.Slices[len(t.Slices)-1]
+			if _, isResult := bigslice.Unwrap(b).(*exec.Result); !isResult && len(t.Deps) == b.NumDep() {
+				for k, d := range t.Deps {
+					if _, reused := bigslice.Unwrap(b.Dep(k).Slice).(*exec.Result); reused || d.Head.Name.InvIndex != t.Name.InvIndex {
+						// Reused results are re-shuffled by tasks of their own.
+						continue
+					}
+					if want, got := b.Dep(k).Shuffle, len(d.Head.Group) > 0; want != got {
+						return fmt.Sprintf("task %s: dependency %d of %s is shuffle=%v in the slice graph but wired shuffle=%v (on %s)", t.Name, k, b.Name(), want, got, d.Head.Name)
+					}
+				}
+			}
+		}
 		// Pipelining never crosses a shuffle, a Materialize pragma or a result.
 		for i := 0; i+1 < len(t.Slices); i++ {
 			s := t.Slices[i]
